@@ -13,6 +13,7 @@
 static void mk_in(URI_CHAR *in, const URI_CHAR *raw, int n) {
 	int i; for (i = 0; i < VLC; i++) in[i] = (i < n) ? raw[i] : 0; in[VLC] = 0;
 }
+#define SE_ISHEX(c) (((c) >= _UT('0') && (c) <= _UT('9')) || ((c) >= _UT('a') && (c) <= _UT('f')) || ((c) >= _UT('A') && (c) <= _UT('F')))
 #ifdef VW
 # define IN_DOMAIN(c) ((c) > 0 && (c) <= 255)
 #else
@@ -39,8 +40,21 @@ void h_unescape(void) {
 	ND_ARR(URI_CHAR, raw, VLC); ND(unsigned char, n); ND(unsigned char, p2s); ND(unsigned char, mode);
 	__CPROVER_assume(n <= VLC && p2s <= 1 && mode <= 3);
 	for (i = 0; i < VLC; i++) __CPROVER_assume(!(i < n) || IN_DOMAIN(raw[i]));
+#ifdef V_TOKENS
+	/* token-structured slice: the text is a sequence of at most V_TOKENS tokens, each a single character or a well-formed
+	 * %XX triplet (so "%0D+%0A" is three tokens); reaches what the plain obligation's length bound cannot */
+	{ int t = 0;
+	  for (i = 0; i < VLC; i++) if (i < n && raw[i] == _UT('%')) {
+		t++;
+		__CPROVER_assume(i + 2 < n && SE_ISHEX(raw[(i + 1 < VLC) ? i + 1 : 0]) && SE_ISHEX(raw[(i + 2 < VLC) ? i + 2 : 0]));
+	  }
+	  __CPROVER_assume((int)n - 2 * t <= V_TOKENS); }
+#endif
 	mk_in(buf, raw, n); mk_in(orig, raw, n);
-	VCOVER(n == VLC && raw[0] == _UT('%') && raw[1] == _UT('4') && raw[2] == _UT('a'), "a lower-case triplet");
+#ifdef V_TOKENS
+	VCOVER(n == 7 && raw[0] == _UT('%') && raw[3] == _UT('+') && raw[4] == _UT('%') && mode == 0 && p2s == 1, "triplet, plus, triplet");
+#endif
+	VCOVER(n >= 3 && raw[0] == _UT('%') && raw[1] == _UT('4') && raw[2] == _UT('a'), "a lower-case triplet");
 	VCOVER_END;
 	r = URI_FUNC(UnescapeInPlaceEx)(buf, p2s ? URI_TRUE : URI_FALSE,
 		mode == 0 ? URI_BR_TO_LF : mode == 1 ? URI_BR_TO_CRLF : mode == 2 ? URI_BR_TO_CR : URI_BR_DONT_TOUCH);
